@@ -22,6 +22,33 @@ import rstr_common as K  # noqa: E402
 CID = "C13"
 VO = ["props/C13.vo", "rstr/RstrPrim.vo", "rstr/RstrModel.vo", "rstr/RstrSpec.vo"]
 NOW = datetime.datetime(2020, 2, 29, 12, 34, 56)
+
+
+# datetime.now() is frozen for the whole run: a text without a start makes every rule it builds call
+# datetime.datetime.now() on its own, and the keyword construction it is compared with calls it again; a
+# second boundary between two of those calls would be a false alarm.  Only `now` is replaced, in the
+# namespace `datetime` of dateutil.rrule; now(tz) gives the same wall clock fields with that tzinfo,
+# which is also what the model's env says.
+class _FrozenMeta(type):
+    def __instancecheck__(cls, inst):            # isinstance(x, datetime.datetime) inside rrule.py
+        return isinstance(inst, datetime.datetime)
+
+    def __subclasscheck__(cls, sub):
+        return issubclass(sub, datetime.datetime)
+
+
+class _FrozenDatetime(datetime.datetime, metaclass=_FrozenMeta):
+    @classmethod
+    def now(cls, tz=None):
+        return NOW.replace(tzinfo=tz)
+
+
+def freeze_now():
+    import types
+    from dateutil import rrule as RR
+    ns = types.SimpleNamespace(**{k: getattr(datetime, k) for k in dir(datetime) if not k.startswith("__")})
+    ns.datetime = _FrozenDatetime
+    RR.datetime = ns
 NOCC = 6
 
 
@@ -133,11 +160,8 @@ def first_start(res):
 
 
 def model_text(o, text, mo, res=None, fwd=0):
-    now = first_start(res) if res is not None else None
-    if now is None or K.tztag(now.tzinfo) == 99:
-        now = NOW
-    return o.call(K.E_MODEL, K.e_env(fwd, now.replace(tzinfo=None) if now.tzinfo is not None else now)
-                  + K.e_opts(mo) + K.e_str(text))
+    # `now` is frozen (freeze_now): the model gets the same constant
+    return o.call(K.E_MODEL, K.e_env(fwd, NOW) + K.e_opts(mo) + K.e_str(text))
 
 
 def is_ascii(s):
@@ -209,7 +233,8 @@ def _eval_roundtrip(o, inp, issues, stats):
         elif naive:
             if a != b:
                 issues.append(("rrulestr(str(rule)) has different occurrences", True,
-                               {"stream": "roundtrip", "input": inp, "text": text, "rule": a, "reparsed": b}))
+                               {"stream": "roundtrip", "input": inp, "text": text, "rule": a, "reparsed": b,
+                                "only_wkst_differs": only_wkst_differs(r, r2)}))
             else:
                 stats["occ_compared"] += 1
                 if isinstance(a, list) and len(a) >= 2:
@@ -219,15 +244,31 @@ def _eval_roundtrip(o, inp, issues, stats):
             if isinstance(a, list) and isinstance(b, list) and [x[:7] for x in a] != [x[:7] for x in b]:
                 stats["aware_wall_differs"] += 1
         # same rule state up to: until's microsecond, time zone (dropped by str)
-        pr, p2 = K.p_rule(r), K.p_rule(r2)
+        pr, p2 = K.p_iter_state(r), K.p_iter_state(r2)
         if naive and pr != p2:
             u = r._until
-            if not (u is not None and u.microsecond and K.p_rule(r.replace(until=u.replace(microsecond=0))) == p2):
+            if fwd != 0 and r._wkst == 0 and only_wkst_differs(r, r2):
+                # F-C13-c's mechanism (WKST=MO is not written, the re-read rule takes calendar.firstweekday()):
+                # the model predicts this state (compared above); the PROPERTY is about occurrences, which are
+                # compared above -- a state difference alone is not reported
+                stats["wkst_state_only"] += 1
+            elif not (u is not None and u.microsecond and K.p_iter_state(r.replace(until=u.replace(microsecond=0))) == p2):
                 issues.append(("rrulestr(str(rule)) is a different rule", True,
                                {"stream": "roundtrip", "input": inp, "text": text, "rule": pr, "reparsed": p2}))
         return text
     finally:
         calendar.setfirstweekday(0)
+
+
+def only_wkst_differs(r, r2):
+    """do the two rules differ in nothing but the week start?"""
+    try:
+        u = r._until
+        if u is not None and u.microsecond:       # str() drops until's microsecond (allowed difference)
+            r = r.replace(until=u.replace(microsecond=0))
+        return r._wkst != r2._wkst and K.p_iter_state(r2.replace(wkst=r._wkst)) == K.p_iter_state(r)
+    except Exception:
+        return False
 
 
 # ------------------------------------------------------------------ streams 2-4: text -> rule / set
@@ -785,14 +826,42 @@ def eval_dates(o, R, tier, issues, stats):
 # ------------------------------------------------------------------ known findings
 
 def m_firstweekday(p):
+    """F-C13-c: ONLY the result "other occurrences after the round trip, the two rules differing in nothing but
+    the week start" for a rule built with wkst=MO under calendar.firstweekday() != 0.  A model mismatch, a crash,
+    a failing re-parse or any other difference on such inputs is NOT matched (it stays a violation)."""
     inp = p.get("input") or {}
-    return p.get("stream") == "roundtrip" and inp.get("fwd", 0) != 0 and (inp.get("kw") or {}).get("wkst") in (0, {"wd": 0})
+    return (p.get("kind") == "rrulestr(str(rule)) has different occurrences" and p.get("stream") == "roundtrip"
+            and p.get("only_wkst_differs") is True
+            and inp.get("fwd", 0) != 0 and (inp.get("kw") or {}).get("wkst") in (0, {"wd": 0}))
 
 
 MATCHERS = {"c13_wkst_mo_firstweekday": m_firstweekday}
 
 
 # ------------------------------------------------------------------ main
+
+def check_floors(tier, stats, hist):
+    q = tier == "quick"
+    att = stats["occ_compared"] + stats["occ_timeouts"]
+    texts = sum(stats["classes"].values())
+    rows = [("occurrence comparisons carried out", stats["occ_compared"], ">=", 2000 if q else 20000),
+            ("share of occurrence comparisons skipped as timeout (CPU budget)",
+             round(stats["occ_timeouts"] / float(max(att, 1)), 3), "<=", 0.45),
+            ("share of texts the model places outside its fragment",
+             round(stats["unmodelled"] / float(max(texts, 1)), 3), "<=", 0.25),
+            ("primitive evaluations", stats["prim_evaluations"], ">=", 30000 if q else 200000),
+            ("compact / overlong date evaluations", stats["date_evaluations"], ">=", 3000 if q else 40000),
+            ("round-trip cases with a naive start", stats["naive"], ">=", 1500 if q else 15000)]
+    for name, lo in (("roundtrip_small_scope", 700), ("spelling", 1000 if q else 15000), ("set", 400 if q else 6000),
+                     ("zoned", 400 if q else 5000), ("malformed", 2000 if q else 50000), ("regression", 10)):
+        rows.append(("cases of stream " + name, hist.get(name, 0), ">=", lo))
+    failed = []
+    for what, val, op, bound in rows:
+        ok = val >= bound if op == ">=" else val <= bound
+        if not ok:
+            failed.append("%s = %s, required %s %s" % (what, val, op, bound))
+    return {"rows": [{"what": w, "value": v, "required": "%s %s" % (o_, b)} for w, v, o_, b in rows], "failed": failed}
+
 
 def gen_status():
     """what harness/gen_rstr.py produced on this run (coq/gen/RstrGen.v)"""
@@ -816,7 +885,7 @@ def gen_status():
 def new_stats():
     return {"evaluations": 0, "ctor_errors": 0, "naive": 0, "aware": 0, "aware_not_reparsable": 0,
             "aware_wall_differs": 0, "occ_timeouts": 0, "occ_compared": 0, "nontrivial": set(),
-            "unmodelled": 0, "wire_overflow": 0, "out_of_space": 0, "classes": {}, "prim_evaluations": 0, "date_evaluations": 0}
+            "unmodelled": 0, "wire_overflow": 0, "wkst_state_only": 0, "out_of_space": 0, "classes": {}, "prim_evaluations": 0, "date_evaluations": 0}
 
 
 def small_scope():
@@ -965,6 +1034,7 @@ def replay(path):
 
 def main():
     argv = sys.argv[1:]
+    freeze_now()
     if "--replay" in argv:
         return replay(argv[argv.index("--replay") + 1])
     tier = C.tier_from_argv(argv)
@@ -1130,6 +1200,11 @@ def main():
         else:
             n_model += 1
         verdict.violation(payload, concrete=bool(conc))
+    # floors: a check whose streams ran empty, whose comparisons mostly timed out or whose model answered
+    # "outside the fragment" too often has not checked anything -- fail closed
+    floors = check_floors(tier, stats, hist)
+    for msg in floors["failed"]:
+        verdict.violation({"kind": "the check ran degenerate: " + msg, "input": None, "floors": floors}, concrete=False)
     if not props["ok"] and not verdict.violations:
         verdict.violation({"kind": "broken proof obligation" + (
             " (translator harness/gen_rstr.py aborted or a C13_gen_* obligation no longer holds: the code of "
@@ -1163,6 +1238,14 @@ def main():
                        "%d rules, all enumerated; every ASCII character in 8 string contexts for the primitives" % hist.get("roundtrip_small_scope", 0),
         "input_distribution": dict(sorted(hist.items())),
         "result_classes_of_text_streams": stats["classes"],
+        "floors_fail_closed": floors,
+        "occurrence_budget": "first %d occurrences of both constructions, 25 ms CPU time (ITIMER_VIRTUAL) for the first, "
+                             "0.5 s for the second; a timeout skips the comparison and is counted" % NOCC,
+        "frozen_now": "datetime.datetime.now() of dateutil.rrule is frozen to %s for the whole run (texts without a "
+                      "start build several rules, each calling now())" % NOW.isoformat(),
+        "projection": "private attributes read: those rrule._iter reads (property comparison, p_iter_state) and "
+                      "_original_rule, read by __str__ / replace (model correspondence only, p_rule); nothing else",
+        "wkst_state_differences_with_equal_occurrences_not_reported": stats["wkst_state_only"],
         "occurrence_comparisons": stats["occ_compared"],
         "occurrence_timeouts_skipped": stats["occ_timeouts"],
         "constructor_errors_compared": stats["ctor_errors"],
